@@ -604,8 +604,12 @@ impl Eval {
             Ok(()) => cs.status,
             Err(Divert::Exit(s)) | Err(Divert::ShellError(s)) => s,
             Err(Divert::Unspecified(w)) => return Err(Divert::Unspecified(w)),
-            Err(Divert::Return(_)) if was_fn => {
-                return Err(Divert::Unspecified("return escaping a subshell"));
+            // `return n` ending a subshell-like environment: the environment exits with n
+            // (documented: return quits the function "with the specified exit status"; outside a
+            // function it works like exit; dash and bash agree)
+            Err(Divert::Return(s)) => {
+                let _ = was_fn;
+                s
             }
             Err(_) => return Err(Divert::Unspecified("break/continue/return escaping a subshell")),
         };
@@ -860,8 +864,9 @@ impl Eval {
                 }
             }
             Cmd::Return(n) => {
-                if !st.in_function {
-                    return Err(Divert::Unspecified("return outside a function"));
+                if !st.in_function && !st.in_subshell {
+                    // documented: outside a function or script it works like exit
+                    return Err(Divert::Exit(n.unwrap_or(st.status)));
                 }
                 Err(Divert::Return(n.unwrap_or(st.status)))
             }
